@@ -38,6 +38,10 @@ where
   pub fn clear(&self) {
     *self.inner.write().unwrap() = None;
   }
+  /// clears the slot; true if it still held a function
+  pub fn take(&self) -> bool {
+    self.inner.write().unwrap().take().is_some()
+  }
   pub fn empty(&self) -> bool {
     self.inner.read().unwrap().is_none()
   }
